@@ -43,6 +43,6 @@ def build(repo, findings):
     u.assume('stub', 'the rest of the function (child shell, task, job, variables) and the `?` exits after the first add (a refused second add leaves the first descriptor in the table: not claimed) are NOT covered')
     u.expected_min_fns = 1
     u.counterexample = replay_scripts(repo, [
-        ('n() { ls /proc/$$/fd | wc -l; }; a=$(n); for i in 1 2 3 4 5; do coproc 1bad { :; } 2>/dev/null; done; b=$(n); echo $((b - a))', '0\n'),
+        ('n() { ls /proc/$$/fd | wc -l; }; a=$(n); for i in 1 2 3 4 5; do coproc 1bad { :; } 2>/dev/null; done; b=$(n); echo $(( (b - a) < 5 ))', '1\n'),      # (the runtime may open a descriptor of its own lazily; a leak shows as 10 more)
     ])
     return u
